@@ -157,6 +157,9 @@ def run(w: World, rep: Report):
     # ---- R6 DEF binds, CALL runs the binding -----------------------------------
     _def_call(w, rep)
 
+    # ---- R4 / R5 documented operands and stack effect ---------------------------
+    _effects_table(w, rep)
+
     # ---- R3 table agreement ----------------------------------------------------
     _table_agreement(w, rep)
 
@@ -168,6 +171,71 @@ def run(w: World, rep: Report):
         'values and is not decided.')
     rep.assumptions += ['handlers are reached only through run_tape dispatch or the explicit '
                         'handler->handler calls seen in the call graph']
+
+
+def _effects_table(w: World, rep: Report):
+    """Each instruction consumes and produces exactly the documented stack items and tape operands: the
+    handler's abstract stack effect (StackFx, a counting interpretation over all paths) at a set of operand
+    samples, boundary values included, against the hand-transcribed table in spec_effects.py."""
+    from .stackfx import StackFx, DYNAMIC, RAISES as FX_RAISES
+    from .spec_effects import SPEC, DATA, RAISES
+    from .summary import tape_reads
+    from .rules_c12 import norm_token
+    rel = 'tapescript/functions.py'
+    rep.rule('C06.R4', 'documented stack effect: for every operand sample (boundary values included) every non-raising '
+             'path through the handler needs and changes the stack depth exactly as the op reference says', floor=150)
+    rep.rule('C06.R5', 'documented tape operands: the handler reads exactly the documented operand fields, in order, on '
+             'every path', floor=90)
+    fx = StackFx(w)
+    ops = dict(w.ops.by_name)
+    names = {op: fn.name for op, (code, fn) in ops.items()}
+    if 'NOP' in w.handlers:
+        names.setdefault('NOP', 'NOP')
+    missing = sorted(set(names) - set(SPEC))
+    rep.check('C06.R5', 'spec-table|covers-every-op', not missing, file=rel,
+              why='' if not missing else f'ops without an entry in the documented-effects table: {missing}')
+    for op, hname in sorted(names.items()):
+        sp = SPEC.get(op)
+        if sp is None:
+            continue
+        fi = w.handlers[hname]
+        # operands
+        try:
+            seqs = [[norm_token(r) for r in sq] for sq in tape_reads(w, fi)]
+        except AnalysisError as e:
+            seqs = [['?' + str(e)[:40]]]
+        ok = len(seqs) == 1 and seqs[0] == sp.reads
+        rep.check('C06.R5', f'functions.{hname}|operands', ok, line=fi.node.lineno, file=rel,
+                  why='' if ok else f'{op} reads {seqs if len(seqs) != 1 else seqs[0]} from the tape; documented operands are {sp.reads}',
+                  facts={'documented': sp.reads})
+        if sp.net == DATA:
+            rep.check('C06.R4', f'functions.{hname}|effect|data-dependent', True, line=fi.node.lineno, file=rel, trivial=True,
+                      facts={'why': sp.why})
+            continue
+        for sample in sp.samples:
+            want = sp.want(sample)
+            got = fx.effect(hname, tuple(sample))
+            if want == RAISES:
+                ok = got == FX_RAISES
+            elif got in (DYNAMIC, FX_RAISES):
+                ok = False
+            else:
+                ok = got[1] == want[1] and (want[0] is None or got[0] == want[0])
+            why = ''
+            if not ok:
+                if got == DYNAMIC:
+                    why = (f'{op} with operands {sample}: the paths through the handler disagree about the stack depth (or it '
+                           f'depends on run-time data); documented: needs {want[0]}, changes depth by {want[1]}'
+                           if want != RAISES else f'{op} with operands {sample}: documented to raise, but some path completes')
+                elif got == FX_RAISES:
+                    why = f'{op} with operands {sample}: every path raises; documented: needs {want[0]}, net {want[1]}'
+                elif want == RAISES:
+                    why = f'{op} with operands {sample}: documented to raise, but the handler completes with effect {got}'
+                else:
+                    why = (f'{op} with operands {sample}: the handler needs {got[0]} item(s) and changes the depth by {got[1]}; '
+                           f'documented: needs {want[0]}, changes depth by {want[1]}')
+            rep.check('C06.R4', f'functions.{hname}|effect|{",".join("x" if v is None else str(v) for v in sample) or "-"}',
+                      ok, line=fi.node.lineno, file=rel, why=why, facts={'got': got, 'want': want})
 
 
 def _def_call(w: World, rep: Report):
